@@ -16,7 +16,7 @@ import (
 func init() {
 	register(&propDef{
 		id:      "C25",
-		explain: "Structural necessary conditions of 'every file the FS handler opens is closed exactly once and never while a response still reads it': (E1-file) typestate of fs.File / *os.File values in fs.go: a file obtained from an open call, or received by a function that takes ownership of it, is on every path closed, stored into an owning object, returned, or passed to a function that takes ownership - exactly once; functions that receive a file either always or never dispose of it (no mixed contracts); a failed open disposes of nothing; (E1-readers) in the request handler the reader count taken when the file is fetched from / put into the cache is given back exactly once on every path: decReadersCount, closing the reader, or handing the reader to the response as its body stream; (R-rmw) a tracking list (pendingFiles, bigFiles) that is read, filtered and written back is not written by a callee between the read and the write-back - otherwise entries appended in between are lost and their files never released; (R-closed) every insertion into a map of cached files is made by the cache manager on a branch on which its closed flag was found false (after close nothing cleans the maps, and a file is released with its last reader); (E8) cache maps, pendingFiles, closed and readersCount are accessed only under cacheLock, bigFiles only under bigFilesLock. Not decided: eviction/reader interleavings, OS-level descriptor state.",
+		explain: "Structural necessary conditions of 'every file the FS handler opens is closed exactly once and never while a response still reads it': (E1-file) typestate of fs.File / *os.File values in fs.go: a file obtained from an open call, or received by a function that takes ownership of it, is on every path closed, stored into an owning object, returned, or passed to a function that takes ownership - exactly once; functions that receive a file either always or never dispose of it (no mixed contracts); a failed open disposes of nothing; (E1-readers) in the request handler the reader count taken when the file is fetched from / put into the cache is given back exactly once on every path: decReadersCount, closing the reader, or handing the reader to the response as its body stream; (R-rmw) a tracking list (pendingFiles, bigFiles) that is read, filtered and written back is not written by a callee between the read and the write-back - otherwise entries appended in between are lost and their files never released; (R-closed) every insertion into a map of cached files is made by the cache manager on a branch on which its closed flag was found false (after close nothing cleans the maps, and a file is released with its last reader); (E8) cache maps, pendingFiles, closed and readersCount are accessed only under cacheLock, bigFiles only under bigFilesLock. (R-count) every append that builds a list of cached files (to release, or pending) in the cache manager is control-dependent on a comparison of that file's readersCount; Not decided: eviction/reader interleavings, OS-level descriptor state.",
 		run:     runC25,
 	})
 }
@@ -566,6 +566,7 @@ func runC25(p *Prog, r *Report) {
 	tbl.exempt["(*fsFile).Release"] = "runs when the file has no readers left and was removed from every list: nobody else holds it"
 	checkLockset(p, r, "E8", tbl, inFS)
 	closedManagerHoldsNothing(p, r)
+	fileListedByReaderCount(p, r)
 }
 
 // closedManagerHoldsNothing (R-closed): close() empties the cache maps once
@@ -605,4 +606,41 @@ func closedManagerHoldsNothing(p *Prog, r *Report) {
 		}
 	}
 	r.Floor("R-closed", "insertions into maps of cached files", n, 1)
+}
+
+// fileListedByReaderCount (C25.R-count): whether an evicted file is released now or parked until its readers are
+// done is decided per file by its reader count. Every append that builds a list of cached files (the list to
+// release, or the list of pending files) is control-dependent on a comparison of readersCount - a bulk append
+// that moves a whole list across skips the test, and files that responses are still reading get closed.
+func fileListedByReaderCount(p *Prog, r *Report) {
+	n := 0
+	ord := map[*ssa.Function]int{}
+	for _, fn := range p.funcsIn("") {
+		if recvTypeName(fn) != "inMemoryCacheManager" {
+			continue
+		}
+		for _, b := range fn.Blocks {
+			for _, in := range b.Instrs {
+				c, ok := in.(*ssa.Call)
+				if !ok {
+					continue
+				}
+				bi, ok := c.Call.Value.(*ssa.Builtin)
+				if !ok || bi.Name() != "append" || !strings.HasSuffix(c.Type().String(), "[]*"+rootPkg+".fsFile") {
+					continue
+				}
+				n++
+				ord[fn]++
+				guarded := false
+				for _, g := range guardsOfDepth(b, 0) {
+					if strings.Contains(g.Atom, "readersCount") {
+						guarded = true
+					}
+				}
+				r.Check("R-count", fmt.Sprintf("%s: file-list append #%d is decided by the file's reader count", funcName(fn), ord[fn]), guarded, p.Pos(c.Pos()),
+					"files are added to a list without a test of readersCount on the way: a file that a response is still reading is released (its handles closed under the reader) and released a second time when that reader finishes")
+			}
+		}
+	}
+	r.Floor("R-count", "appends that build lists of cached files", n, 3)
 }
